@@ -268,6 +268,83 @@ pub fn generator(tiny: bool) -> TreeGen {
     TreeGen { leaves, key_leaves, anchors, complex_keys: true, empty_collections: false }
 }
 
+
+/// Shapes for the canonical-anchor pass: one scalar `a`, optional anchor marks (`?`), alias placeholders (`*?`).
+pub fn shape_generator() -> TreeGen {
+    let a = Node::plain("a");
+    let leaves = vec![a.clone(), a.clone().anchored("?"), Node::alias("?")];
+    TreeGen { key_leaves: leaves.clone(), leaves, anchors: vec![None, Some("?".into())], complex_keys: true, empty_collections: false }
+}
+
+/// All labellings of a shape: anchored nodes get fresh names n1, n2, ... in document order; every alias
+/// placeholder ranges over all names defined before it (so 3+ distinct anchors fit into small trees).
+/// Shapes with an alias before any anchor are skipped (covered by the two-name alphabet).
+pub fn labellings(shape: &Node, f: &mut dyn FnMut(Node)) {
+    fn count(n: &Node, anchors: &mut usize, choices: &mut Vec<usize>) -> bool {
+        if n.anchor.is_some() {
+            *anchors += 1;
+        }
+        if let Kind::Alias(_) = n.kind {
+            if *anchors == 0 {
+                return false;
+            }
+            choices.push(*anchors);
+        }
+        for c in n.children() {
+            if !count(c, anchors, choices) {
+                return false;
+            }
+        }
+        true
+    }
+    let mut choices = Vec::new();
+    if !count(shape, &mut 0, &mut choices) || choices.is_empty() {
+        return;
+    }
+    fn label(n: &Node, next_anchor: &mut usize, next_alias: &mut usize, pick: &[usize]) -> Node {
+        let mut m = n.clone();
+        if m.anchor.is_some() {
+            *next_anchor += 1;
+            m.anchor = Some(format!("n{}", *next_anchor));
+        }
+        if let Kind::Alias(_) = m.kind {
+            m.kind = Kind::Alias(format!("n{}", pick[*next_alias] + 1));
+            *next_alias += 1;
+        }
+        match &mut m.kind {
+            Kind::Seq(v) => {
+                for c in v.iter_mut() {
+                    *c = label(c, next_anchor, next_alias, pick);
+                }
+            }
+            Kind::Map(v) => {
+                for (k, x) in v.iter_mut() {
+                    *k = label(k, next_anchor, next_alias, pick);
+                    *x = label(x, next_anchor, next_alias, pick);
+                }
+            }
+            _ => {}
+        }
+        m
+    }
+    let mut pick = vec![0usize; choices.len()];
+    loop {
+        f(label(shape, &mut 0, &mut 0, &pick));
+        let mut i = choices.len();
+        loop {
+            if i == 0 {
+                return;
+            }
+            i -= 1;
+            pick[i] += 1;
+            if pick[i] < choices[i] {
+                break;
+            }
+            pick[i] = 0;
+        }
+    }
+}
+
 pub fn run(ctx: &Ctx) -> i32 {
     let p = C02;
     let g = generator(false);
@@ -305,6 +382,25 @@ pub fn run(ctx: &Ctx) -> i32 {
         let a = g2.for_each_next(&by2, Acc::default, |acc, t| per_tree(acc, t), Acc::merge);
         acc = acc.merge(a);
         bounds["tiny_alphabet_nodes"] = json!(7);
+    }
+    // canonical-anchor pass: distinct fresh anchor names, aliases to any earlier anchor
+    {
+        let sg = shape_generator();
+        let can_full = ctx.tier.pick(6, 7);
+        let sby = sg.build(can_full);
+        let per_shape = |acc: &mut Acc, shape: Node| {
+            labellings(&shape, &mut |t| {
+                acc.class("canonical_anchor_trees", 1);
+                per_tree(acc, t)
+            });
+        };
+        for k in 1..=can_full {
+            let a = run_chunks(&sby[k], &per_shape);
+            acc = acc.merge(a);
+        }
+        let a = sg.for_each_next(&sby, Acc::default, |acc, t| per_shape(acc, t), Acc::merge);
+        acc = acc.merge(a);
+        bounds["canonical_anchor_pass_max_nodes"] = json!(can_full + 1);
     }
     acc.samples.truncate(0);
     for t in by[full].iter().rev().take(3) {
